@@ -18,12 +18,17 @@ Representation
 * `iters`: the iterators the harness holds (`struct trie_iter` = {prefix, n, root}); key 0 is the
   iterator of `qb_map_foreach`, harness id `i` is key `i + 1`.
 * `fix17`, `fix80` select the code as repaired (true, true: the code in /repo) or as found.
+* `fix84`: `trie_notify_del` looks the key up exactly (fixes/D84-trie-notify-del-exact.patch) or, as
+  the code does now, accepts a key that ends inside the segment of a longer key's node (D84).  Its
+  default is OBSERVED on /repo's lib/trie.c at every run (`Gen.TRIE_NDEL_PREFIX_MATCH`,
+  tools/extract.d/TrieConst.json), so the model follows the tree under test.
 * Loops that walk the tree (`trie_node_next`, `trie_node_release`, `trie_notify`, `trie_destroy`)
   run on fuel = number of nodes ever allocated + 2, which they cannot exhaust on a tree (each step
   visits another node / goes one level up).  malloc never fails.  `mem_used`/`num_nodes` (only
   printed by `qb_trie_dump`) are not modelled.
 -/
 import QbVerif.Model.MapSpec
+import QbVerif.Gen.TrieConst
 
 namespace QbVerif.Trie
 open QbVerif.Map QbVerif.Gen
@@ -60,6 +65,7 @@ structure Iter where
 structure T where
   fix17 : Bool
   fix80 : Bool
+  fix84 : Bool
   nodes : List (Option Node)
   length : Nat
   iters : List (Nat × Iter)
@@ -68,7 +74,8 @@ structure T where
   deriving DecidableEq, Repr
 
 /-- `qb_trie_create` -/
-def create (fix17 fix80 : Bool) : T := ⟨fix17, fix80, [some (Node.blank none)], 0, [], false⟩
+def create (fix17 fix80 : Bool) (fix84 : Bool := TRIE_NDEL_PREFIX_MATCH == 0) : T :=
+  ⟨fix17, fix80, fix84, [some (Node.blank none)], 0, [], false⟩
 
 /-- the trie as it is in /repo -/
 def empty : T := create true true
@@ -311,9 +318,9 @@ def T.notifyAdd (t : T) (key : Option Key) (events id : Nat) : T × Option Err :
     | none => events &&& EV_FREE != 0
   (t1.modify n fun x => { x with notifs := if tail then head ++ [⟨events, id⟩] else ⟨events, id⟩ :: head }, none)
 
-/-- `qb_map_notify_del[_2]` + `trie_notify_del` (the lookup is NOT exact) -/
+/-- `qb_map_notify_del[_2]` + `trie_notify_del` (as found the lookup is NOT exact: D84) -/
 def T.notifyDel (t : T) (key : Option Key) (events : Nat) (id : Option Nat) : T × Option Err :=
-  match (match key with | none => some 0 | some k => t.lookup k false) with
+  match (match key with | none => some 0 | some k => t.lookup k t.fix84) with
   | none => (t, some .enoent)
   | some n =>
     let head := (t.nd n).notifs
@@ -419,7 +426,7 @@ def T.step (t : T) (op : Op) : T × Out :=
   | .destroy =>
     if !t.iters.isEmpty then (t, ⟨[], .rc (some .ebusy)⟩) else
     -- `trie_destroy`, then the harness creates a fresh trie
-    (create t.fix17 t.fix80, ⟨(T.destroyLoop t.fuel t 0 []).2, .ok⟩)
+    (create t.fix17 t.fix80 t.fix84, ⟨(T.destroyLoop t.fuel t 0 []).2, .ok⟩)
   | .iterNew i pfx =>
     if (t.iters.lookup (i + 1)).isSome then (t, ⟨[], .badIter⟩) else (t.iterCreate (i + 1) pfx, ⟨[], .ok⟩)
   | .iterNext i =>
